@@ -38,6 +38,9 @@ def generate(rng):
   ups = []
   for i in range(n_up):
     deps = [u for u in ups if rng.random() < 0.4]
+    for u in list(deps):
+      deps.extend(d2 for d2 in programs[u]["deps"] if d2 not in deps)
+    deps = [u for u in ups if u in deps]
     upstream = [(programs[d]["module"], programs[d]["exports"]) for d in deps]
     src, ex = proggen.gen_module(rng, "up%d" % i, upstream, errors=False,
                                  size=rng.randrange(3, 9), theme=theme)
@@ -46,6 +49,8 @@ def generate(rng):
     ups.append(pid)
   mains = []
   prev = None
+  prev_direct = []
+  full_map = rng.random() < 0.5
   for i in range(rng.randrange(2, 5)):
     if prev is not None and rng.random() < 0.5:
       # a VARIANT of the previous main program: same module name, same
@@ -54,16 +59,38 @@ def generate(rng):
       deps, sub_seed, size = prev
       fork = (rng.randrange(1, size), rng.randrange(1 << 30))
     else:
-      deps = [u for u in ups if rng.random() < 0.6]
+      direct = [u for u in ups if rng.random() < 0.6]
+      if rng.random() < 0.5:
+        rng.shuffle(direct)     # the order of the import statements varies
+      if rng.random() < 0.5:
+        # import only the top of a dependency chain: what lies below is then
+        # loaded while the stub above it is being resolved
+        below = {d2 for u in direct for d2 in programs[u]["deps"]}
+        direct = [u for u in direct if u not in below] or direct
+      # what a dependency's stub imports must be reachable too (the imports
+      # map of a real build is transitively closed), but the program itself
+      # imports only its direct dependencies
+      deps = list(direct)
+      for u in list(deps):
+        for d2 in programs[u]["deps"]:
+          if d2 not in deps:
+            deps.append(d2)
+      deps = [u for u in ups if u in deps]
+      if full_map:
+        deps = list(ups)   # the imports map lists the whole project, as a
+                           # real build's does; the program imports a part
+                           # (all main programs then share their loaders)
       sub_seed, size, fork = rng.randrange(1 << 30), rng.randrange(4, 14), None
-    upstream = [(programs[d]["module"], programs[d]["exports"]) for d in deps]
+      prev_direct = direct
+    upstream = [(programs[d]["module"], programs[d]["exports"]) for d in prev_direct]
     src, ex = proggen.gen_module(_random.Random(sub_seed), "main", upstream,
                                  errors=True, size=size, theme=theme, fork=fork)
     if fork and rng.random() < 0.5:
       src = proggen.drop_some_bases(rng, src)
     prev = (deps, sub_seed, size)
     pid = "m%d" % i
-    programs[pid] = {"module": "main", "src": src, "deps": deps, "exports": ex}
+    programs[pid] = {"module": "main", "src": src, "deps": deps, "exports": ex,
+                     "direct": list(prev_direct)}
     if fork:
       programs[pid]["variant_of"] = "m%d" % (i - 1)
     mains.append(pid)
@@ -74,7 +101,7 @@ def generate(rng):
   twins = []
   if leafs and rng.random() < 0.5:
     uk = rng.choice(leafs)
-    users = [m for m in mains if uk in programs[m]["deps"]]
+    users = [m for m in mains if uk in programs[m].get("direct", ())]
     if users:
       # one constant whose type is int in the module and str in its variant,
       # read by every user
@@ -122,6 +149,17 @@ def generate(rng):
     opts = rng.choice(opt_variants)
     key = "%s|%s|%s" % (prog, form, json.dumps(opts, sort_keys=True))
     pool.append({"prog": prog, "dep_form": form, "opts": opts, "key": key})
+  if rng.random() < 0.5:
+    # a "session": every main program under ONE configuration - what a
+    # persistent worker does (same options, same loader, many sources)
+    form = rng.choice(["text", "pickle", "pickle"])
+    opts = rng.choice(opt_variants[:2])
+    for prog in mains:
+      if programs[prog].get("poison"):
+        continue
+      key = "%s|%s|%s" % (prog, form, json.dumps(opts, sort_keys=True))
+      if not any(q["key"] == key for q in pool):
+        pool.append({"prog": prog, "dep_form": form, "opts": opts, "key": key})
   for m, mv in twins[:2]:
     # both sides of a changing dependency, against the text stub
     opts = rng.choice(opt_variants[:2])
@@ -156,7 +194,14 @@ def generate(rng):
     order = list(pool)
     rng.shuffle(order)
     extra = [rng.choice(pool) for _ in range(rng.randrange(2, 7))]
-    for base in order + extra:
+    seen_lk = set()
+    again = []     # re-asked after a faulted first use, through the same loader
+    queue = list(order + extra)
+    while queue or again:
+      if again and (not queue or rng.random() < 0.5):
+        hist.append(again.pop(0))
+        continue
+      base = queue.pop(0)
       req = dict(base)
       if req.get("kind") != "builtins":
         req["kind"] = rng.choice(["api", "api", "file", "file"])
@@ -172,11 +217,22 @@ def generate(rng):
             req["force_imports"] = rng.sample(
                 ["os", "sys", "math", "string", "up0", "up1", "nonexistent_mod"],
                 rng.randrange(1, 4))
-      if w != 0 and req.get("kind") != "builtins" and rng.random() < 0.12:
+      # storage faults are placed where they meet in-flight state: the first
+      # use of a persistent loader is when it reads its dependency stubs (a
+      # later use finds them cached and reads nothing)
+      first_use = False
+      if req.get("loader") in ("persist", "persist_dirty"):
+        lk = _lkey({"programs": programs}, req)
+        first_use = lk not in seen_lk
+        seen_lk.add(lk)
+      p_fault = 0.45 if first_use else 0.08
+      if w != 0 and req.get("kind") != "builtins" and rng.random() < p_fault:
         # storage fault inside this analysis: its k-th read of a simulated
         # file (source, dependency stubs) fails
-        req["io_fault"] = {"nth": rng.choice([1, 1, 1, 2, 2, 3]),
+        req["io_fault"] = {"nth": rng.choice([1, 1, 2, 2, 2, 3]),
                            "errno": rng.choice(["EIO", "ENOENT", "EACCES", "EMFILE"])}
+        if first_use and rng.random() < 0.8:
+          again.append(dict(base, kind="api", loader="persist"))
       if perturbed:
         pert = {}
         if rng.random() < 0.5:
@@ -326,6 +382,20 @@ def evaluate(trace, full=False):
                          "signature": {"class": "DIVERGE",
                                        "stale_loader_after_save_to_pickle": True}}
           break
+        elif seen[k][0] != val and _protocols_nested_crash(trace, w, resp, c, seen[k][0], val):
+          if stale_div is None:
+            stale_div = {"class": "DIVERGE", "oracle": c,
+                         "what": "request %s: with --protocols the analysis fails "
+                                 "(%s) iff the reused loader holds a module with a "
+                                 "nested class that this source never imports "
+                                 "(worker %d req %d vs worker %d req %d)" % (
+                                     resp["key"], val if val != "<no crash>" else seen[k][0],
+                                     seen[k][1], seen[k][2], w, resp["req"]),
+                         "key": resp["key"], "a": [seen[k][1], seen[k][2]],
+                         "b": [w, resp["req"]],
+                         "signature": {"class": "DIVERGE",
+                                       "protocols_option_unresolved_nested_class": True}}
+          break
         elif seen[k][0] != val:
           violation = {"class": "DIVERGE", "oracle": c,
                        "what": "request %s: %s differs between worker %d req "
@@ -344,6 +414,30 @@ def evaluate(trace, full=False):
   stats["keys"] = len({k for k, _ in seen})
   stats["ctx"] = sorted(stats["ctx"])
   return {"violation": violation, "stats": stats, "digest": log.digest()}
+
+
+_NESTED = None
+
+
+def _protocols_nested_crash(trace, w, resp, comp, a, b):
+  """Classification of one known finding from the failing run itself: the
+  request asks for --protocols, the component that differs is the failure
+  message, one side did not fail and the other failed with `Unresolved
+  class/LateType` naming a NESTED class (module.Outer.Inner)."""
+  global _NESTED
+  import re
+  if _NESTED is None:
+    _NESTED = re.compile(r"^Unresolved (class|LateType): '\w+(\.\w+)*\.[A-Z]\w*\.\w+'$")
+  if comp != "crash_msg" or resp["req"] < 0:
+    return False
+  rq = trace["workers"][w]["history"][resp["req"]]
+  if not rq.get("opts", {}).get("protocols"):
+    return False
+  vals = {a, b}
+  if "<no crash>" not in vals:
+    return False
+  other = (vals - {"<no crash>"}).pop()
+  return bool(_NESTED.match(other or ""))
 
 
 def _lkey(trace, rq):
@@ -488,6 +582,11 @@ def _chunks(src):
 def run_one(seed, index, do_shrink):
   rng = kernel.rng_for(seed, "simworker", index)
   trace = generate(rng)
+  from sim import c04_scenarios
+  scripted = c04_scenarios.scenarios()
+  if index < len(scripted):
+    # the first run indices of every batch are the scripted histories
+    trace = json.loads(json.dumps(scripted[index]))
   res = evaluate(trace)
   if res["violation"]:
     known = kernel.known_signatures("C04")
